@@ -64,8 +64,10 @@ pub fn lookup(id: &str) -> Option<PropFn> {
 /// Byte-level entries (libFuzzer targets, thorough tier) of the properties whose domain is a byte string.
 pub fn fuzz_bytes(id: &str) -> Option<crate::engine::FuzzFn> {
     Some(match id {
+        "C04" => c04::fuzz_bytes,
         "C18" => c18::fuzz_bytes,
         "C19" => c19::fuzz_bytes,
+        "C20" => c20::fuzz_bytes,
         _ => return None,
     })
 }
@@ -73,6 +75,7 @@ pub fn fuzz_bytes(id: &str) -> Option<crate::engine::FuzzFn> {
 /// Number of decoders / conversions behind the selector byte of a property's byte-level entry.
 pub fn fuzz_subs(id: &str) -> usize {
     match id {
+        "C04" => 10,
         "C18" => 3,
         "C19" => 11,
         _ => 1,
@@ -82,8 +85,10 @@ pub fn fuzz_subs(id: &str) -> usize {
 /// Starting corpora for the libFuzzer targets.
 pub fn fuzz_seed_corpus(id: &str) -> Vec<Vec<u8>> {
     match id {
+        "C04" => c04::fuzz_seed_corpus(),
         "C18" => c18::fuzz_seed_corpus(),
         "C19" => c19::fuzz_seed_corpus(),
+        "C20" => c20::fuzz_seed_corpus(),
         _ => Vec::new(),
     }
 }
